@@ -180,7 +180,7 @@ def canonical_stable(nodes, steps, ps, pe):
 # CIGAR helpers
 
 
-CIG = re.compile(r"(\d+)([=XIDMNSHP])")
+CIG = re.compile(r"(\d+)([=XIDMNSHP])")  # every SAM operation
 
 
 def parse_cigar(cg):
